@@ -271,10 +271,10 @@ example : (step current (runHist current (step current (freshWorld demoMol) (.en
 
 /-! ## hydrogens -/
 
-/-- Full statement (kept visible, **not proved**): after every admissible history no atom of an object outside a
-transaction carries a hydrogen count computed from an outdated environment.  It was false until /repo commit 5256c7c
-(an attribute write and a structural edit inside one transaction; the pre-fix witness was a 4-op history on CCO.C) and is
-now validated by the correspondence (recomputed-atom sets compared exactly, rebuild comparison) and the search only. -/
+/-- Full statement (kept visible; **false** of today's code, witness `Findings.C13.hydrogens_fresh_false`): after every
+admissible history no atom of an object outside a transaction carries a hydrogen count computed from an outdated
+environment.  Excluded class of the known finding: inside one transaction an atom attribute write, then a public
+`fix_structure()`, then a later structural edit (the plain attribute-write + edit case was repaired by /repo 5256c7c). -/
 def HydrogensFresh : Prop :=
   ∀ (m : Mol) (h : List (Op × List String)), admissible current (freshWorld m) h = true →
     ∀ o ∈ (runHist current (freshWorld m) h).objs, o.backup = some none → hStale o.toCore = []
